@@ -384,6 +384,14 @@ def r16x_adapter_plumbing(repo, sink):
             why = "does not hand the consumer's request to _get_info exactly once"
         elif cls is tcls and o.fields.get("initial_time") != T1:
             why = f"records initial_time {o.fields.get('initial_time')!r} instead of the time of the exchanged info"
+        else:
+            # a second target behind the same adapter: its request is exchanged upstream as well (the source counts one
+            # exchange per registered end point and publishes only when all of them are done)
+            req2 = xinfo("req2", G2, T2, U2)
+            got2 = _run(it, f, [req2], o)
+            if len(it.requests) != 2 or it.requests[1] is not req2:
+                why = (f"a second get_info (second target behind the adapter) reaches _get_info {len(it.requests) - 1} more time(s) ({got2[0]}): every "
+                       "request must be exchanged upstream, otherwise the source waits forever for the second end point (false circular coupling)")
         sink.check(why is None, "R16", f"adapter-get_info:{cls.name}", f,
                    ok="get_info stores and returns the result of _get_info" + (" and takes the start time from it" if cls is tcls else ""),
                    bad=f"{cls.name}.get_info {why}")
